@@ -39,10 +39,12 @@ type Prog struct {
 	wholeStore map[*ssa.Function]map[string]bool // struct types wholly overwritten through a non-local pointer
 	extImpure  map[*ssa.Function]bool            // calls (transitively) an external function that is not in the effect-free table
 
-	noExpand  map[*ssa.Function]bool // functions whose (value, error) results keep their call atoms
-	keepCalls map[*ssa.Function]bool // anchors: their calls are never replaced by the returned expression (nil until anchors are resolved)
-	implCache map[string][]*ssa.Function
-	tagLabel  string
+	noExpand    map[*ssa.Function]bool // functions whose (value, error) results keep their call atoms
+	keepCalls   map[*ssa.Function]bool // anchors: their calls are never replaced by the returned expression (nil until anchors are resolved)
+	implCache   map[string][]*ssa.Function
+	tagLabel    string
+	Desugared   []string        // range-over-func loops rewritten in the overlay (desugar.go)
+	inlinedAway map[string]bool // iterator functions all of whose uses were rewritten: dead code in the analysed program
 }
 
 // loadProg loads dir (the repository root) with the given extra build tags / env.
@@ -76,6 +78,35 @@ func loadProg(dir string, tags string, extraEnv []string) (*Prog, error) {
 	}
 	if len(errs) > 0 {
 		return nil, fmt.Errorf("type errors: %s", strings.Join(errs, "; "))
+	}
+	// range-over-func loops over simple repo iterators are read as the loop nests they denote
+	// (desugar.go): an overlay, type-checked again; dropped when it does not check
+	if overlay, notes, away := desugarIterators(pkgs); len(overlay) > 0 {
+		cfg2 := *cfg
+		cfg2.Overlay = overlay
+		pkgs2, err2 := packages.Load(&cfg2, "./...")
+		okLoad := err2 == nil && len(pkgs2) == len(pkgs)
+		var why []string
+		if err2 != nil {
+			why = append(why, err2.Error())
+		}
+		for _, pk := range pkgs2 {
+			for _, e := range pk.Errors {
+				okLoad = false
+				why = append(why, e.Error())
+			}
+		}
+		if okLoad {
+			pkgs = pkgs2
+			p.ByPath = map[string]*packages.Package{}
+			for _, pk := range pkgs {
+				p.ByPath[pk.PkgPath] = pk
+			}
+			p.Desugared = notes
+			p.inlinedAway = away
+		} else {
+			p.Desugared = []string{"desugaring of range-over-func loops abandoned (the rewritten package does not type-check): " + trunc(strings.Join(why, "; "))}
+		}
 	}
 	sort.Slice(pkgs, func(i, j int) bool { return pkgs[i].PkgPath < pkgs[j].PkgPath })
 	p.Pkgs = pkgs
@@ -195,6 +226,9 @@ func (p *Prog) indexFuncs() {
 	add = func(fn *ssa.Function) {
 		if fn == nil || seen[fn] || fn.Blocks == nil {
 			return
+		}
+		if obj, ok := fn.Object().(*types.Func); ok && p.inlinedAway[obj.FullName()] {
+			return // a simple iterator every use of which is read as the loop nest it denotes
 		}
 		seen[fn] = true
 		p.Funcs = append(p.Funcs, fn)
@@ -437,6 +471,37 @@ func (p *Prog) funcValuesRec(v ssa.Value, seen map[ssa.Value]bool) []*ssa.Functi
 		var out []*ssa.Function
 		for _, e := range x.Edges {
 			out = append(out, p.funcValuesRec(e, seen)...)
+		}
+		return out
+	case *ssa.Parameter:
+		// a function handed in: whatever the static call sites pass (none if the function is also
+		// entered dynamically)
+		fn := x.Parent()
+		if fn == nil || p.callers == nil {
+			return nil
+		}
+		idx := -1
+		for i, q := range fn.Params {
+			if q == x {
+				idx = i
+			}
+		}
+		var out []*ssa.Function
+		for _, cf := range p.callers[fn] {
+			sites := callsTo(cf, fn)
+			if len(sites) == 0 {
+				return nil
+			}
+			for _, ci := range sites {
+				if idx < 0 || idx >= len(ci.Common().Args) {
+					return nil
+				}
+				fs := p.funcValuesRec(ci.Common().Args[idx], seen)
+				if len(fs) == 0 {
+					return nil
+				}
+				out = append(out, fs...)
+			}
 		}
 		return out
 	}
